@@ -256,6 +256,36 @@ fn nest_doc(t: &mut simcore::Tape, fl: Flavour) -> (Vec<u8>, usize) {
 /// A syntactically valid document written as raw text around structured random IRIs: these
 /// never went through the toolkit's own validator, so a disagreement between it and the parser
 /// (the parser accepts, the validator rejects) shows up on a *valid* document.
+/// A relative IRI reference (RFC 3987 irelative-ref): network-path, absolute-path, no-scheme
+/// path, empty, with colons allowed wherever the grammar allows them (query, fragment, later
+/// segments) — only the generalized parsers, and the others with a base IRI, accept them.
+fn draw_rel_ref(t: &mut simcore::Tape) -> String {
+    const SEG: &[&str] = &["a", "b.c", "..", ".", "", "x:y", "%c3%a9", "\u{e9}", "~", "a;b=c", "@"];
+    let mut s = String::new();
+    match t.draw(5) {
+        0 => s.push_str("//example.org"),
+        1 => s.push('/'),
+        2 => {}
+        _ => {
+            // path-noscheme: the first segment must not contain ':'
+            s.push_str(["a", "b.c", "..", ".", "%41", "\u{e9}"][t.below(6)]);
+        }
+    }
+    for _ in 0..t.below(3) {
+        s.push('/');
+        s.push_str(SEG[t.below(SEG.len())]);
+    }
+    if t.chance(1, 2) {
+        s.push('?');
+        s.push_str(["", "q=1", "id=urn:x:y", "a:b", "t=00:10", "/?"][t.below(6)]);
+    }
+    if t.chance(1, 2) {
+        s.push('#');
+        s.push_str(["", "f", "s:1", "t=00:10", "a:", ":", "x/y?z"][t.below(7)]);
+    }
+    s
+}
+
 fn iri_stress_doc(t: &mut simcore::Tape, fl: Flavour) -> Vec<u8> {
     let n = t.range(1, 3);
     let mut s = String::new();
@@ -287,6 +317,12 @@ fn iri_stress_doc(t: &mut simcore::Tape, fl: Flavour) -> Vec<u8> {
             s.push(']');
         }
         Flavour::Nq | Flavour::Gnq => {
+            if fl == Flavour::Gnq {
+                // generalized N-Quads accepts relative references as they are
+                for _ in 0..n {
+                    s.push_str(&format!("<{}> <{}> <{}> <{}> .\n", draw_rel_ref(t), draw_rel_ref(t), draw_rel_ref(t), draw_rel_ref(t)));
+                }
+            }
             for _ in 0..n {
                 s.push_str(&format!("<{}> <{}> <{}> <{}> .\n", draw_iri(t), draw_iri(t), draw_iri(t), draw_iri(t)));
                 s.push_str(&format!("<{}> <{}> \"v\"^^<{}> .\n", draw_iri(t), draw_iri(t), draw_iri(t)));
@@ -308,6 +344,11 @@ fn iri_stress_doc(t: &mut simcore::Tape, fl: Flavour) -> Vec<u8> {
             }
             if fl != Flavour::Turtle {
                 s.push_str(&format!("GRAPH <{}> {{ <{}> <{}> <{}> }}\n", draw_iri(t), draw_iri(t), draw_iri(t), draw_iri(t)));
+            }
+            // relative references: resolved against the base by the strict parsers (when there is
+            // one), kept as they are by the generalized one
+            for _ in 0..n {
+                s.push_str(&format!("<{}> <{}> <{}> .\n", draw_rel_ref(t), draw_rel_ref(t), draw_rel_ref(t)));
             }
         }
     }
@@ -711,8 +752,9 @@ pub fn run_c08(ctx: &mut Ctx) -> Verdict {
     ensure!(
         bad.is_empty(),
         format!("invalid_term_yielded/{}", fl.name()),
-        "{}",
-        bad.join("\n")
+        "{} [{}]",
+        bad.join("\n"),
+        if n_corruptions == 0 && matches!(origin, "serialized" | "corpus" | "iri_stress") { "doc=valid" } else { "doc=hostile" }
     );
     Ok(())
 }
